@@ -24,6 +24,7 @@ package main
 
 import (
 	"fmt"
+	"os"
 	"net"
 	"sort"
 	"strings"
@@ -114,6 +115,7 @@ type scenario struct {
 	queries  int
 	prefetch int
 	ecsID    int
+	unquiet  int
 
 	// race: while set, the incarnation's server moves the virtual clock past its own
 	// lease end just before it answers an `sr.` query with a self-referral — the
@@ -559,6 +561,10 @@ func execNew(f []string) vlib.Res {
 			cfg.QueryTimeout.Duration = 8 * time.Second
 		}
 	}})
+	// quiesce must also see the tail of a background refresh (see VerifC08TrackPrefetch)
+	if os.Getenv("VERIF_C08_NOTRACK") == "" { // (diagnosis switch: reproduce the pre-tracker quiesce)
+		cache.VerifC08TrackPrefetch(s.p.Cache)
+	}
 	s.t0 = time.Now()
 	cur = s
 	tags := "l3,world"
@@ -573,13 +579,14 @@ func execNew(f []string) vlib.Res {
 // quiesce waits until no background refresh is queued or running, so that
 // the clock is only moved (and the state only audited) on a quiet pipeline.
 func (s *scenario) quiesce() {
-	deadline := time.Now().Add(7 * time.Second)
+	deadline := time.Now().Add(12 * time.Second)
 	for time.Now().Before(deadline) {
 		if !cache.VerifC08PrefetchBusy(s.p.Cache) {
 			return
 		}
 		time.Sleep(time.Millisecond)
 	}
+	s.unquiet++ // a refresh outlived every wait: the virtual clock can no longer be trusted in this scenario
 }
 
 func minDur(a, b time.Duration) time.Duration {
@@ -643,6 +650,9 @@ func bucket(e authority.VerifC08Entry) int {
 // priority, so it never hides anything else).
 func (s *scenario) finish(verdict string, softs ...string) string {
 	a := s.audit()
+	if s.unquiet > 0 {
+		return "-" // not judged: the pipeline could not be quiesced before a clock move
+	}
 	if verdict != "ok" {
 		return verdict
 	}
